@@ -12,44 +12,12 @@
 From Coq Require Import List Bool Arith ZArith.
 From Coq.Strings Require Import Byte.
 From GI Require Import Lib.Bytes Gen.TxtarConsts Txtar.Txtar.
+From GI Require Export Lib.GoSem.
 Import ListNotations.
 
-Inductive res (A : Type) : Type :=
-| Ok (a : A)
-| Panic
-| OutOfFuel.
-Arguments Ok {A} a.
-Arguments Panic {A}.
-Arguments OutOfFuel {A}.
-
-(* len(d) *)
-Definition len (d : bytes) : Z := Z.of_nat (length d).
-
-(* d[lo:hi]: Go panics unless 0 <= lo <= hi <= len(d) *)
-Definition slice_z (d : bytes) (lo hi : Z) : option bytes :=
-  if ((0 <=? lo) && (lo <=? hi) && (hi <=? len d))%Z
-  then Some (firstn (Z.to_nat hi - Z.to_nat lo) (skipn (Z.to_nat lo) d))
-  else None.
-
-(* d[i]: Go panics unless 0 <= i < len(d) *)
-Definition index_z (d : bytes) (i : Z) : option byte :=
-  if ((0 <=? i) && (i <? len d))%Z then nth_error d (Z.to_nat i) else None.
-
-(* bytes.IndexByte(d, c): first position of c, None for -1 *)
-Fixpoint index_byte (c : byte) (d : bytes) : option nat :=
-  match d with
-  | [] => None
-  | b :: r => if beq b c then Some 0 else option_map S (index_byte c r)
-  end.
-
-(* bytes.Index(d, p): first position at which p occurs, None for -1 *)
-Fixpoint index_sub (p d : bytes) : option nat :=
-  if has_prefix p d then Some 0 else
-  match d with
-  | [] => None
-  | _ :: r => option_map S (index_sub p r)
-  end.
-
+(* The result type res (Ok / Panic / OutOfFuel), len, the checked slice and index
+   expressions slice_z / index_z and the searches index_byte / index_sub are shared with
+   the source translator's semantics and live in Lib/GoSem.v. *)
 (* bytes.Index(data, newlineMarker) *)
 Definition index_nl_marker (d : bytes) : option nat := index_sub newline_marker d.
 
